@@ -198,6 +198,7 @@ type prTree struct {
 	m     [][2]bstr
 	depth int         // internal nodes on the longest path
 	root  node.Root   // root of the tree without database (version 0)
+	ptr   *node.Pointer // the verified complete tree (from the full-iteration proof)
 	roots []node.Root // root per backend (same hash, own version)
 	trees []mkvs.Tree
 }
@@ -310,6 +311,7 @@ func prBuildTree(ctx context.Context, m [][2]bstr, id int, key string, db *prSha
 		return nil, err
 	}
 	t.depth = prDepth(ptr)
+	t.ptr = ptr
 	return t, nil
 }
 
@@ -1043,6 +1045,8 @@ type prStats struct {
 	remoteDrift    int64
 	remoteCompared int64
 	backendDiffer  int64
+	posRequests    int64
+	posProblems    []map[string]any
 	panics         int64
 	byClass        map[string]int64
 	byKind         map[string]int64
@@ -1427,6 +1431,72 @@ func (w *prWorker) handle(line []byte, id int64) error {
 	bi := int(id % int64(len(t.trees)))
 	probes := w.probeKeys(&c)
 
+	if honestCase && c.Q.Op == "get" {
+		// the same lookup asked from other positions: the zero hash (a client that does not track its position), the two
+		// subtrees below the root (one of them is off the key's path), the root of another tree.  Whatever the position, a
+		// proof the tree produces must verify against the root and determine the key (statement of C04, first sentence).
+		want := prLookup(t.ptr, 0, node.Key(c.Q.K))
+		var positions []hash.Hash
+		var zero hash.Hash
+		positions = append(positions, zero)
+		if t.ptr != nil {
+			if in, ok := t.ptr.Node.(*node.InternalNode); ok {
+				for _, ch := range []*node.Pointer{in.Left, in.Right, in.LeafNode} {
+					if ch != nil {
+						positions = append(positions, ch.Hash)
+					}
+				}
+			}
+		}
+		var foreign hash.Hash
+		foreign.FromBytes([]byte("verif: not a node of this tree"))
+		positions = append(positions, foreign)
+		for _, pos := range positions {
+			for bi2 := range t.trees {
+				atomic.AddInt64(&st.posRequests, 1)
+				tid := syncer.TreeID{Root: t.roots[bi2], Position: pos}
+				var rsp *syncer.ProofResponse
+				var rerr error
+				if perr := guard(func() {
+					rsp, rerr = t.trees[bi2].SyncGet(w.ctx, &syncer.GetRequest{Tree: tid, Key: c.Q.K, IncludeSiblings: c.Q.Sib, ProofVersion: c.Q.V})
+				}); perr != nil {
+					rerr = perr
+				}
+				problem := ""
+				if rerr != nil {
+					problem = "request failed: " + rerr.Error()
+				} else {
+					// a proof is anchored at the requested position when the lookup passes through it (the client trusts that hash
+					// from an earlier verified proof), else at the root
+					var pv syncer.ProofVerifier
+					anchor := rsp.Proof.UntrustedRoot
+					switch {
+					case anchor.Equal(&t.root.Hash):
+						vp, verr := pv.VerifyProof(w.ctx, t.root.Hash, &rsp.Proof)
+						if verr != nil {
+							problem = "proof does not verify against the root: " + verr.Error()
+						} else if got := prLookup(vp, 0, node.Key(c.Q.K)); got.S != want.S || !bytes.Equal(got.V, want.V) {
+							problem = fmt.Sprintf("proof verifies against the root but determines %s %x for the key, the tree has %s %x", got.S, []byte(got.V), want.S, []byte(want.V))
+						}
+					case anchor.Equal(&pos) && !pos.Equal(&zero) && !pos.Equal(&foreign):
+						if _, verr := pv.VerifyProof(w.ctx, pos, &rsp.Proof); verr != nil {
+							problem = "proof anchored at the requested position does not verify against it: " + verr.Error()
+						}
+					default:
+						problem = "proof is anchored neither at the root nor at the requested position: " + anchor.String()
+					}
+				}
+				if problem != "" {
+					st.mu.Lock()
+					if len(st.posProblems) < 10 {
+						st.posProblems = append(st.posProblems, map[string]any{"m": c.M, "key": c.Q.K, "proof_version": c.Q.V, "siblings": c.Q.Sib,
+							"position": pos.String(), "position_is_zero": pos.IsEmpty() || pos == zero, "backend": prBackends[bi2], "problem": problem})
+					}
+					st.mu.Unlock()
+				}
+			}
+		}
+	}
 	if honestCase {
 		// the model's proof builder against the real one
 		want, cerr := prConcretizeAll(c.Hp)
@@ -1756,6 +1826,7 @@ func proofReplay(args []string) int {
 		"inapplicable": st.inapplicable, "builder_drift": st.builderDrift, "verdict_drift": st.verdictDrift, "verdict_drift_by_kind": st.verdictByKind,
 		"shape_drift": st.shapeDrift, "determined_drift": st.detDrift,
 		"remote_drift": st.remoteDrift, "remote_compared": st.remoteCompared, "backend_differ": st.backendDiffer, "panics": st.panics,
+		"position_requests": st.posRequests, "position_problems": st.posProblems,
 		"by_class": st.byClass, "by_kind": st.byKind, "by_kind_accepted": st.byKindAccepted, "by_version": st.byVersion, "by_op": st.byOp,
 		"trees": len(shared.ids), "events": nEvents, "tiny_events": nTiny, "drift_samples": st.driftSamples, "samples": st.sampleCases,
 		"remote_error_texts": st.remoteErrTexts, "verify_error_texts": st.verifyErrTexts, "backends": prBackends,
